@@ -55,6 +55,7 @@ type FuncSpec struct {
 	MayPanic   bool
 	TypedPtrs  bool // assume distinct instances of one struct type never overlap
 	WFHeap     bool     // assume that every reference stored in a freshly introduced heap component is allocated
+	Pathwise   bool     // postconditions are checked at every return separately instead of once on the merged exit state
 	Reveal     []string // opaque spec functions whose definition this function's proof may use
 	AllocFresh bool // results are freshly allocated
 	Splits     []*Split
@@ -313,6 +314,8 @@ func ParseFile(path, defaultPkg string) (*File, error) {
 				cur.NoSafety = true
 			case "wfheap":
 				cur.WFHeap = true
+			case "pathwise":
+				cur.Pathwise = true
 			case "reveal":
 				cur.Reveal = append(cur.Reveal, strings.Fields(strings.ReplaceAll(rest, ",", " "))...)
 			case "typedptrs":
